@@ -25,6 +25,7 @@ package measurements
 //@   owns[C17]
 
 //@ func (*MinimumMeasurement).Reset
+//@   zeroes_unclassified_fields
 //@   maintains[C15,C18] m
 //@   ensures[C15,C18] cleared: m.value == 0.0
 //@   assigns m.value
@@ -45,6 +46,7 @@ package measurements
 //@   owns[C17]
 
 //@ func (*SingleMeasurement).Reset
+//@   zeroes_unclassified_fields
 //@   ensures[C18] cleared: m.value == 0.0
 //@   assigns m.value
 //@   owns[C17]
@@ -94,6 +96,7 @@ package measurements
 //@   owns[C17]
 
 //@ func (*ExponentialAverageMeasurement).Reset
+//@   zeroes_unclassified_fields
 //@   ensures[C18] like_new: m.value == 0.0 && m.count == 0 && m.sum == 0.0
 //@   ensures[C18] config_kept: m.window == old(m.window) && m.warmupWindow == old(m.warmupWindow)
 //@   assigns m.value, m.sum, m.count
@@ -149,6 +152,7 @@ package measurements
 //@   owns[C17]
 
 //@ func (*SimpleExponentialMovingAverage).Reset
+//@   zeroes_unclassified_fields
 //@   maintains[C18] m
 //@   ensures[C18] like_new: m.seenSamples == 0 && m.value == 0.0 && m.alpha == m.initialAlpha
 //@   assigns m.seenSamples, m.value, m.alpha
@@ -176,6 +180,7 @@ package measurements
 //@   owns[C17]
 
 //@ func (*SimpleMovingVariance).Reset
+//@   zeroes_unclassified_fields
 //@   maintains[C18] m
 //@   ensures[C18] like_new: m.stdev == 0.0 && m.normalized == 0.0 && m.average.seenSamples == 0 && m.average.value == 0.0 && m.average.alpha == m.average.initialAlpha && m.variance.seenSamples == 0 && m.variance.value == 0.0 && m.variance.alpha == m.variance.initialAlpha
 //@   owns[C17]
@@ -194,6 +199,7 @@ package measurements
 //@   assigns m.seenCount, m.delta, m.value, m.deltaState.stdev, m.deltaState.normalized, m.deltaState.average.seenSamples, m.deltaState.average.value, m.deltaState.variance.seenSamples, m.deltaState.variance.value
 
 //@ func (*WindowlessMovingPercentile).Reset
+//@   zeroes_unclassified_fields
 //@   maintains[C18] m
 //@   ensures[C18] like_new: m.value == 0.0 && m.seenCount == 0 && m.delta == m.deltaInitial
 //@   ensures[C18] state_like_new: m.deltaState.stdev == 0.0 && m.deltaState.normalized == 0.0 && m.deltaState.average.seenSamples == 0 && m.deltaState.average.value == 0.0 && m.deltaState.variance.seenSamples == 0 && m.deltaState.variance.value == 0.0
